@@ -5,6 +5,18 @@ import collections
 import lib, exprcheck
 
 
+KNOWN_NON_ASCII = set(chr(c) for c in (160, 0x3000, 0x2003, 0x2028, 0x85, 233, 201, 252, 220, 0x3b1, 0x391, 0x4e2d, 0xb2, 0x661))
+
+
+def classifiable(text):
+    """The extracted model classifies only the few non-ASCII characters of Lexer.test_uclass (Rust's Unicode tables are a
+    parameter of the model): texts with other non-ASCII characters outside comments are left to the implementation-level checks."""
+    import re
+    t = re.sub(r"/\*.*?\*/", " ", text, flags=re.S)
+    t = re.sub(r"(#|//)[^\n\r]*", " ", t)
+    return all(ord(c) < 128 or c in KNOWN_NON_ASCII for c in t)
+
+
 def _canon_item(item):
     f = item.split("|")
     kind, names, spans = f[0], f[1] if len(f) > 1 else "", f[2] if len(f) > 2 else ""
@@ -21,7 +33,7 @@ def compare(report, texts, impl, key_prefix, features=None, limit=150, max_bytes
     if features is None:
         features = lib.default_features()
     fb = exprcheck.feature_bits(features)
-    ids = [cid for cid in texts if len(texts[cid].encode()) <= max_bytes and
+    ids = [cid for cid in texts if len(texts[cid].encode()) <= max_bytes and classifiable(texts[cid]) and
            any(l.startswith(("accept", "reject")) for l in impl.get(cid, []))][:limit]
     driver = lib.build_driver()
     m1 = lib.run_cases(driver, ["%s mfrontsp %s %s" % (cid, fb, lib.hexs(texts[cid])) for cid in ids])
@@ -62,4 +74,70 @@ def compare(report, texts, impl, key_prefix, features=None, limit=150, max_bytes
             continue
         report.broken.append({"what": "unexpected answer of the model's diagnostic parser", "detail": rep})
         break
+    return res
+
+
+def _blocks(text):
+    """The error blocks of a diagnostic text: a block starts at a line beginning with 'error: '."""
+    out = []
+    for line in text.split("\n"):
+        if line.startswith("error: ") or not out:
+            out.append([line])
+        else:
+            out[-1].append(line)
+    return ["\n".join(b).rstrip("\n") for b in out if any(x for x in b)]
+
+
+def _canon_block(b):
+    import re
+    first = b.split("\n", 1)[0]
+    if first.startswith("error: Circular dependency") or " set, but not the rest of the " in first:
+        return "\n".join(sorted(re.split(r"[\s']+", b)))            # which loop / in which order the inputs are listed follows the hash order
+    return re.sub(r"\(Did you mean '([^']*)'\?\)", lambda m: "(Did you mean '%s'?)" % m.group(1).lower(), b)
+
+
+def compare_stderr(report, texts, impl, key_prefix, features=None, limit=150, max_bytes=1500):
+    """The complete standard-error text, computed by the model FROM THE PROGRAM TEXT ALONE, against what the real
+    renderer wrote (`render` line of the harness's `front` answer), as a multiset of error blocks."""
+    if features is None:
+        features = lib.default_features()
+    fb = exprcheck.feature_bits(features)
+    ids = [cid for cid in texts if len(texts[cid].encode()) <= max_bytes and classifiable(texts[cid]) and
+           any(l.startswith(("accept", "reject")) for l in impl.get(cid, []))][:limit]
+    model = lib.run_cases(lib.build_driver(), ["%s mstderr %s %s %s" % (cid, fb, lib.hexs("input.hcl"), lib.hexs(texts[cid])) for cid in ids])
+    res = collections.Counter()
+    for cid in ids:
+        blk = impl[cid]
+        v = [l for l in blk if l.startswith(("accept", "reject"))][0]
+        rend = [l for l in blk if l.startswith("render ")]
+        real = bytes.fromhex(rend[0][7:].replace("-", "")).decode("utf-8", "replace") if rend else ""
+        mo = model.get(cid, ["MISSING"])
+        rep = {"text": texts[cid][:3000], "impl_verdict": v[:300], "impl_stderr": real[:2000], "model": [l[:200] for l in mo[:6]]}
+        if mo == ["none"]:
+            res["stderr:none"] += 1
+            if v.startswith("accept"):
+                report.violation(key_prefix + "-verdict-differs-from-full-model", "accepted, but the model front end rejects the text", rep)
+            continue
+        if mo == ["accepted"]:
+            res["stderr:accepted"] += 1
+            if not v.startswith("accept"):
+                report.violation(key_prefix + "-verdict-differs-from-full-model", "rejected (%s), but the model front end accepts the text" % v[:80], rep)
+            continue
+        if not mo or not all(l.startswith("block ") for l in mo):
+            report.broken.append({"what": "the model's standard-error text could not be computed", "detail": rep})
+            break
+        res["stderr:blocks"] += 1
+        if v.startswith("accept"):
+            report.violation(key_prefix + "-verdict-differs-from-full-model", "accepted, but the model front end writes diagnostics", rep)
+            continue
+        if any(l == "block none" for l in mo):
+            report.violation(key_prefix + "-render-would-panic", "the model says rendering one of the diagnostics panics", rep)
+            continue
+        mblocks = [bytes.fromhex(l[6:].replace("-", "")).decode("utf-8", "replace").rstrip("\n") for l in mo]
+        a = sorted(_canon_block(b) for b in _blocks(real))
+        b = sorted(_canon_block(b) for b in mblocks)
+        if a != b:
+            rep["model_stderr"] = "\n".join(mblocks)[:2000]
+            report.violation(key_prefix + "-stderr-differs-from-model", "the text on standard error differs from the one the model computes from the program text: %s"
+                             % lib.first_diff(a, b)[:240], rep)
     return res
